@@ -40,6 +40,9 @@ def make_case(ctype):
         spec["as_str"] = draw(st.booleans())
         spec["outside"] = draw(st.sampled_from(["none", "none", "none", "sibling_prefix", "parent", "unrelated", "relative"]))
         spec["mode"] = draw(st.sampled_from(["relocate", "relocate", "passthrough"]))
+        # the audio directory exists on disk and the recordings sit behind a symbolic link inside it (to a sibling folder inside
+        # the directory, or to a store outside of it): paths are stored as the user wrote them, links are not resolved
+        spec["symlink"] = draw(st.sampled_from([None, None, None, None, "inside", "outside"]))
         return spec
 
     return case
@@ -110,7 +113,26 @@ def check(spec, ctx):
         return
 
     # ---- relocation -------------------------------------------------------------------------------
-    obj, _ = graphs.build(spec, audio_root=A)
+    rec_root = A
+    if spec.get("symlink") and spec["absolute"]:
+        import shutil
+
+        shutil.rmtree(base, ignore_errors=True)
+        target = (A / "real store") if spec["symlink"] == "inside" else (base / "outside store")
+        os.makedirs(target, exist_ok=True)
+        os.makedirs(A, exist_ok=True)
+        os.symlink(target, A / "lnk", target_is_directory=True)
+        rec_root = A / "lnk"
+        ctx.label(f"symlink={spec['symlink']}")
+    try:
+        _relocation(spec, ctx, io, graphs, A, B, rec_root, arg, nested, doc)
+    finally:
+        if rec_root != A:
+            shutil.rmtree(base, ignore_errors=True)
+
+
+def _relocation(spec, ctx, io, graphs, A, B, rec_root, arg, nested, doc):
+    obj, _ = graphs.build(spec, audio_root=rec_root)
     ctx.case(spec, nontrivial=nested and A != B, labels=[spec["ctype"], "relocate", "abs" if spec["absolute"] else "rel", "str" if spec["as_str"] else "Path", "nested" if nested else "flat"])
     ctx.call(spec, "io.save(audio_dir=A)", io.save, obj, doc, audio_dir=arg(A))
     with open(doc) as fh:
